@@ -67,8 +67,20 @@ func (g *G) genAolMsg() (sdk.Msg, string) {
 	if kind == "create" && len(existing) > 0 && g.chance("same-name-other-owner", 35) {
 		topic = pick(g, "existing-topic-name", existing).Name
 	}
+	var dangling *world.AolTopic
+	if len(m.Dangling) > 0 && g.chance("aim-dangling", 30) {
+		// writer entries a genesis left under a pair that has no topic
+		d := m.Dangling[pick(g, "dangling", sortedKeys(m.Dangling))]
+		if i := g.W.AcctIndex(sdk.AccAddress(d.Owner).String()); i >= 0 {
+			owner, topic, dangling = i, d.Name, d
+			kind = g.weighted("dangling-kind", "rec", 6, "delw", 1, "create", 1, "addw", 1)
+		}
+	}
 	ownerStr := g.addrString("owner-spelling", owner)
 	cur := m.Topic(g.W.Accts[owner].Addr.Bytes(), topic)
+	if cur == nil && dangling != nil {
+		cur = dangling
+	}
 	switch kind {
 	case "create":
 		desc := pick(g, "desc", []string{"", "d", strings.Repeat("x", 5000)})
@@ -140,7 +152,7 @@ func sortedKeys[V any](m map[string]V) []string {
 // genAolGenesis draws an aol genesis section whose owners have addresses of legal lengths
 // 1..255 that are byte-prefixes of one another (reachable only through genesis: nobody can
 // sign for them), with prefix-related topic names, writers and records.
-func (g *G) genAolGenesis(cdc codec.JSONCodec) json.RawMessage {
+func (g *G) genAolGenesis(cdc codec.JSONCodec, dangling bool) json.RawMessage {
 	gs := aoltypes.DefaultGenesis()
 	base := make([]byte, 255)
 	for i := range base {
@@ -201,6 +213,20 @@ func (g *G) genAolGenesis(cdc codec.JSONCodec) json.RawMessage {
 				}
 			}
 			gs.Topics[o.String()+"/"+name] = tp
+		}
+	}
+	if dangling {
+		// referentially inconsistent but valid: writer entries under pairs that have no topic
+		// entry (GenesisState.Validate performs no such check)
+		n := 1 + g.intn("dangling-n", 3)
+		for i := 0; i < n; i++ {
+			o := g.W0Accts[g.intn("dangling-owner", len(g.W0Accts))].Addr
+			name := pick(g, "dangling-topic", topicPool()[:10])
+			if _, exists := gs.Topics[o.String()+"/"+name]; exists {
+				continue
+			}
+			wa := g.W0Accts[g.intn("dangling-writer", len(g.W0Accts))].Addr
+			gs.Writers[o.String()+"/"+name+"/"+wa.String()] = &aoltypes.Writer{Moniker: "d", NanoTimestamp: nano}
 		}
 	}
 	bz, err := cdc.MarshalJSON(gs)
